@@ -83,6 +83,47 @@ Theorem C04_zero_byte_steps_ignore_buffer :
        next_state zinf zall utf8_valid s buf = next_state zinf zall utf8_valid s buf'.
 Proof. exact zero_byte_steps_ignore_buffer. Qed.
 
+(* compressed image data delivered as p then q leaves the state and the appended image bytes of p ++ q (premise: the external inflater never retracts output - zinf_monotone) *)
+Theorem C04_image_data_cut :
+  forall (zinf : bool -> list Z -> list Z * dstatus) (zall : list Z -> option (list Z))
+         (utf8_valid : list Z -> bool) (s : dstate) (ty : Z) (p q : list Z) (z1 : zst) 
+         (o1 : list Z) (z2 : zst) (o2 : list Z),
+       zinf_monotone zinf ->
+       zcoh zinf (infl s) ->
+       st s = Some (SImage ty) ->
+       p <> [] ->
+       q <> [] ->
+       zlen (p ++ q) < c_remaining s ->
+       snd (zinf (negb (z_ignore_adler (infl s))) (z_in (infl s))) = DNeedMore ->
+       snd (zinf (negb (z_ignore_adler (infl s))) (z_in (infl s) ++ p)) = DNeedMore ->
+       z_decompress zinf (infl s) p = Ok (z1, o1) ->
+       z_decompress zinf z1 q = Ok (z2, o2) ->
+       next_state zinf zall utf8_valid s p = (after_image s ty p z1, Ok (length p, EImageData, o1)) /\
+       next_state zinf zall utf8_valid (after_image s ty p z1) q =
+       (after_image s ty (p ++ q) z2, Ok (length q, EImageData, o2)) /\
+       next_state zinf zall utf8_valid s (p ++ q) =
+       (after_image s ty (p ++ q) z2, Ok (length (p ++ q), EImageData, o1 ++ o2)) /\ 
+       zcoh zinf z2.
+Proof. exact image_cut. Qed.
+
+(* the inflater wrapper (ZlibStream::decompress in its greedy denotation) is cut-invariant under the same premise *)
+Theorem C04_inflater_wrapper_cut :
+  forall (zinf : bool -> list Z -> list Z * dstatus) (z : zst) (p q : list Z) 
+         (z1 : zst) (o1 : list Z) (z2 : zst) (o2 : list Z),
+       zinf_monotone zinf ->
+       zcoh zinf z ->
+       snd (zinf (negb (z_ignore_adler z)) (z_in z)) = DNeedMore ->
+       snd (zinf (negb (z_ignore_adler z)) (z_in z ++ p)) = DNeedMore ->
+       z_decompress zinf z p = Ok (z1, o1) ->
+       z_decompress zinf z1 q = Ok (z2, o2) ->
+       z_decompress zinf z (p ++ q) = Ok (z2, o1 ++ o2) /\ zcoh zinf z1 /\ zcoh zinf z2.
+Proof. exact z_decompress_cut. Qed.
+
+(* non-vacuity of the premise *)
+Theorem C04_monotonicity_premise_satisfiable :
+  zinf_monotone (fun (_ : bool) (a : list Z) => (a, DNeedMore)).
+Proof. exact zinf_monotone_satisfiable. Qed.
+
 (* non-vacuity: the initial state is at a field boundary *)
 Example C04_nonvacuous : st (init_state (mk_opts true false false false true) 1000) = Some (SU32 KSig1 []).
 Proof. reflexivity. Qed.
@@ -92,3 +133,6 @@ Print Assumptions C04_field_completion_same_parse.
 Print Assumptions C04_parse_u32_ignores_control_state.
 Print Assumptions C04_body_cut_partial.
 Print Assumptions C04_zero_byte_steps_ignore_buffer.
+Print Assumptions C04_image_data_cut.
+Print Assumptions C04_inflater_wrapper_cut.
+Print Assumptions C04_monotonicity_premise_satisfiable.
